@@ -294,9 +294,14 @@ def run(repo, res):
 
     # ---- R3 API results -------------------------------------------------------------------------------
     assist = repo.module_func('supp/assistant.py', 'assist')
+    from ..derive import Expander
+    ex = Expander(assist, stop=('line', 'source', 'position'))
     for r in [n for n in ast.walk(assist) if isinstance(n, ast.Return)]:
-        ok = isinstance(r.value, ast.Tuple) and len(r.value.elts) == 2 and (
-            (isinstance(r.value.elts[1], ast.Call) and unparse(r.value.elts[1].func) in ('sorted', 'list_packages')))
+        second = r.value.elts[1] if isinstance(r.value, ast.Tuple) and len(r.value.elts) == 2 else None
+        if isinstance(second, ast.Name):
+            second = ex.expand(second)
+        ok = second is not None and (
+            (isinstance(second, ast.Call) and unparse(second.func) in ('sorted', 'list_packages')))
         res.check('C17-R3', 'assist return `%s`' % unparse(r.value)[:50], ok, 'supp/assistant.py', r.lineno,
                   'assist must return proposals that are sorted at the return site', nontrivial=False)
     lp = repo.module_func('supp/assistant.py', 'list_packages')
